@@ -19,8 +19,15 @@
    Initialize / reads): [check_hcase] replays it on the code's own model ([cstep_run Stored]: the sorted
    list is stored back), [oracle_hcase] evaluates the property on the observation in the
    specification's view (every Initialize consults [sequence] of ALL loaders configured so far; per
-   path the last supplier among all documents merged so far wins). *)
+   path the last supplier among all documents merged so far wins).
+
+   A re-use case ([rcase]) applies option values / loader slices that were built ONCE to several objects
+   (Apps, Configures) or several times to one; every object is judged as a history from the VALUES.
+
+   ArgsLoaders reach this file as the argument STRINGS the real loader received ([LArgv]); typing the values
+   (strconv2.ParseAny) and splitting key from value is the model's job (ConfigMerge.parse_arg). *)
 From Coq Require Import List String ZArith Bool Arith.
+From IocVerif Require Import Model.Strconv.   (* before ConfigMerge: its is_map / ... are the ones meant below *)
 From IocVerif Require Import Model.Sorter Model.ConfigMerge.
 Import ListNotations.
 Local Open Scope list_scope.
@@ -29,7 +36,7 @@ Inductive oclass := OOk | OErr | OPanic.
 
 Record case := mkCase {
   cid : nat;
-  cosargs : list arg;                       (* "--app.config=..." arguments in os.Args *)
+  cosargs : list bytes;                     (* os.Args[1:] as the process received them ("--app.config=K=V" strings) *)
   cops : list copt;                         (* options passed to Run, in order *)
   cout : oclass;                            (* observed outcome of Run *)
   cgets : list (path * option ctree);       (* observed App.Get(p); None = nil *)
@@ -92,7 +99,7 @@ Definition user_lids (used : list loader) : list nat := map lid (filter is_user 
 Definition log_of (seq : list loader) : list nat :=
   let '(_, _, used) := consult seq in user_lids used.
 
-Definition os_loader (c : case) : loader := mkLoader 0 (LArgs (cosargs c)).
+Definition os_loader (c : case) : loader := mkLoader 0 (LArgv (cosargs c)).
 Definition loaders_of (c : case) : list loader := configured Repaired (os_loader c) (cops c).
 
 (* ---- model vs implementation ----------------------------------------------------------------- *)
@@ -118,8 +125,17 @@ Definition check_case (c : case) : bool :=
 
 (* documents of a sequence as the SPECIFICATION sees them; None when some loader cannot deliver *)
 Definition unreadable (l : loader) : bool := match lk l with LFile None => true | _ => false end.
+(* the scalar-then-dotted key clash inside one ArgsLoader (go-kid/properties panics); a panic of strconv2.ParseAny on
+   a value text is NOT this shape *)
 Definition args_panics (l : loader) : bool :=
-  match lk l with LArgs a => match args_load a with LoadPanic => true | _ => false end | _ => false end.
+  match lk l with
+  | LArgs a => match args_load a with LoadPanic => true | _ => false end
+  | LArgv a => match argv_typed a with
+               | Ok args => match args_load args with LoadPanic => true | _ => false end
+               | _ => false
+               end
+  | _ => false
+  end.
 
 Definition lookup_obs (p : path) (gs : list (path * option ctree)) : option (option ctree) :=
   match find (fun pg => if list_eq_dec string_dec (fst pg) p then true else false) gs with
@@ -281,6 +297,30 @@ Definition hkf_b (cs : list hcase) : list nat := map hid (filter hkf_b_case cs).
 Definition hkf_c (cs : list hcase) : list nat := map hid (filter hkf_c_case cs).
 Definition hcount_nontrivial (cs : list hcase) : list nat :=
   [length (filter hnontrivial cs)].
+
+(* ---- option values and loader slices used more than once ------------------------------------------
+   The option values (app.SetConfigLoader(ls...) / AddConfigLoader(ls...) / SetConfig(file)) and the loader slices
+   are built ONCE and applied round after round: to a new App, to the same App started again, to a new App on the
+   same Configure, to Configures driven directly.  A value is a value: every object (App / Configure) that is
+   configured from them goes through its own history, [robjs] lists them with what was observed; each is checked
+   and judged exactly like a history on one Configure. *)
+Record rcase := mkRCase { rid : nat; robjs : list hcase }.
+
+Definition check_rcase (c : rcase) : bool := forallb (fun h => check_hcase h && wf_hcase h) (robjs c).
+Definition oracle_rcase (c : rcase) : bool := forallb oracle_hcase (robjs c).
+Definition rkf_b_case (c : rcase) : bool := negb (oracle_rcase c) && forallb (horacle_gen true) (robjs c).
+Definition rkf_c_case (c : rcase) : bool :=
+  negb (oracle_rcase c) && forallb (fun h => oracle_hcase h || hkf_c_case h) (robjs c).
+(* non-trivial: the values were used for at least two Initializes *)
+Definition rnontrivial (c : rcase) : bool :=
+  (2 <=? length (filter (fun o => match o with HInit _ _ => true | _ => false end)
+                        (flat_map hsteps (robjs c))))%nat.
+
+Definition rmismatches (cs : list rcase) : list nat := map rid (filter (fun c => negb (check_rcase c)) cs).
+Definition rviolations (cs : list rcase) : list nat := map rid (filter (fun c => negb (oracle_rcase c)) cs).
+Definition rkf_b (cs : list rcase) : list nat := map rid (filter rkf_b_case cs).
+Definition rkf_c (cs : list rcase) : list nat := map rid (filter rkf_c_case cs).
+Definition rcount_nontrivial (cs : list rcase) : list nat := [length (filter rnontrivial cs)].
 
 Definition mismatches (cs : list case) : list nat :=
   map cid (filter (fun c => negb (check_case c && wf_case c)) cs).
